@@ -19,7 +19,7 @@ MANIFEST = {
               "the recorded one (error after progress) live; sampled tests with well-behaved writers never reach these paths."),
     "note": ("Trusted: rustc front end; HIR normaliser. Not decided: that the delivered bytes equal the stripped form end-to-end "
              "(needs C01's undecided scanner invariant plus a protocol argument). Known finding: error after progress (D5b)."),
-    "technique": "static analysis: value-flow rules on the short-write and error paths (replay slice, snapshot restore, returned count), case-wise abstract evaluation of fmt::Adapter, result-position rule for write_vectored",
+    "technique": "static analysis: value-flow rules on the short-write and error paths (replay slice, snapshot restore, returned count), composed abstract evaluation of fmt::Adapter (new, write_str, write_fmt), result-position rule for write_vectored",
 }
 
 
